@@ -218,6 +218,7 @@ def _query_sweep(acc, shard, nshards, seed, tier):
     pools = [[["t", None], ["t", ""], ["b", "2"]], [["k", ""], ["k", None], ["k", "1"], ["K", None]], [["b", "2"], ["a", "1"], ["c", None], ["q", "a b"]], [["id", "42"], ["B", "x"], ["é", "ü"]], [["a", "1"], ["a", "0"], ["x", ""]],
              [["k", "a%20b"], ["z", "%41"]], [["page", "2"]], []]
     hosts = ["http://example.com/p", "https://www.facebook.com/zuck", "https://www.youtube.com/watch", "https://WWW.YOUTUBE.COM:443/watch", "http://M.Facebook.com:80/zuck"]
+    base_of = {"https://WWW.YOUTUBE.COM:443/watch": "https://www.youtube.com/watch", "http://M.Facebook.com:80/zuck": "http://m.facebook.com/zuck"}
     tracking_all = T.TRACKING_POOL
     idx = 0
 
@@ -228,7 +229,7 @@ def _query_sweep(acc, shard, nshards, seed, tier):
         extra = [x for d, xs in T.PER_DOMAIN_POOL.items() if d in host for x in xs]
         for pool in pools:
             base_items = pool if "youtube" not in host else [["v", "dQw4w9WgXcQ"]] + pool
-            base = host + ("?" + ser(base_items) if base_items else "")
+            base = base_of.get(host, host) + ("?" + ser(base_items) if base_items else "")
             for perm in itertools.permutations(base_items):
                 for pos in range(len(perm) + 1):
                     for tr in [None] + tracking + extra:
@@ -243,7 +244,7 @@ def _query_sweep(acc, shard, nshards, seed, tier):
                         sep = ["&", "&amp;", "&AMP;", "&amp%3B"][idx % 4]
                         v = host + ("?" + ser(items, sep) if items else "")
                         kw = [{}, {"quoted": True}, {"platform_aware": True}][idx % 3]
-                        names = (["permute-query"] if list(perm) != base_items else []) + (["tracking-items"] if tr is not None else []) + (["amp-entity"] if sep != "&" and len(items) > 1 else [])
+                        names = (["host-case+default-port"] if host in base_of else []) + (["permute-query"] if list(perm) != base_items else []) + (["tracking-items"] if tr is not None else []) + (["amp-entity"] if sep != "&" and len(items) > 1 else [])
                         case = {"kind": "variant", "base": base, "variant": v, "transforms": names, "kwargs": kw}
                         acc.check(case, base != v, _cl(case) if idx % 23 == 0 else ())
 
